@@ -94,6 +94,13 @@ func (c *Ctx) provWalk(p *prov, fr *provFrame, v ssa.Value, seen map[ssa.Value]b
 		return
 	}
 	seen[v] = true
+	// a []string as a whole is the container of the input's fields: only indexing it (below, at the
+	// load) contributes a field; passing it around contributes nothing
+	if sl, ok := v.Type().Underlying().(*types.Slice); ok {
+		if b, ok := sl.Elem().Underlying().(*types.Basic); ok && b.Kind() == types.String {
+			return
+		}
+	}
 	switch x := v.(type) {
 	case *ssa.Const:
 		p.Consts = true
@@ -204,15 +211,20 @@ func (c *Ctx) provCall(p *prov, fr *provFrame, call *ssa.Call, result int, seen 
 	if samePkg && callee.Blocks != nil && depth < 3 && c.P.IsRepoFunc(callee) {
 		sub := &provFrame{fn: callee, args: call.Call.Args, up: fr}
 		n := 0
+		before := len(p.Fields) + len(p.Params)
 		for _, b := range callee.Blocks {
 			if ret, ok := b.Instrs[len(b.Instrs)-1].(*ssa.Return); ok && result < len(ret.Results) {
 				c.provWalk(p, sub, returnedValue(ret, result), map[ssa.Value]bool{}, depth+1)
 				n++
 			}
 		}
-		_ = n
+		if n > 0 && len(p.Fields)+len(p.Params) > before {
+			// the callee's own data flow names the inputs this result is computed from; its other
+			// arguments (e.g. the raw text kept for error messages) do not reach the result
+			return
+		}
 	}
-	// the result depends on every argument (data or control), whatever the callee does inside
+	// otherwise the result depends on every argument (data or control), whatever the callee does
 	for _, a := range call.Call.Args {
 		c.provWalk(p, fr, a, seen, depth)
 	}
